@@ -182,11 +182,18 @@ func (cfg *Config) envSet(name, value string) error {
 // The config specifies shell expansion options; nil behaves the same as an
 // empty config.
 func Literal(cfg *Config, word *syntax.Word) (string, error) {
+	return literal(cfg, word, true)
+}
+
+// literal is like Literal; with unescape unset, the backslashes in unquoted
+// literals are kept, for the arguments of parameter expansions which may be
+// used as patterns or inside double quotes.
+func literal(cfg *Config, word *syntax.Word, unescape bool) (string, error) {
 	if word == nil {
 		return "", nil
 	}
 	cfg = prepareConfig(cfg)
-	field, err := cfg.wordField(word.Parts, quoteNone)
+	field, err := cfg.wordFieldUnescaped(word.Parts, quoteNone, unescape)
 	if err != nil {
 		return "", err
 	}
@@ -574,6 +581,13 @@ const (
 )
 
 func (cfg *Config) wordField(wps []syntax.WordPart, ql quoteLevel) ([]fieldPart, error) {
+	return cfg.wordFieldUnescaped(wps, ql, false)
+}
+
+// wordFieldUnescaped is like wordField; when unescape is set, backslashes
+// in unquoted literals are removed, as quote removal requires when the
+// result is used as a string rather than as a pattern.
+func (cfg *Config) wordFieldUnescaped(wps []syntax.WordPart, ql quoteLevel, unescape bool) ([]fieldPart, error) {
 	var field []fieldPart
 	for i, wp := range wps {
 		switch wp := wp.(type) {
@@ -603,6 +617,18 @@ func (cfg *Config) wordField(wps []syntax.WordPart, ql quoteLevel) ([]fieldPart,
 						}
 					}
 					sb.WriteByte(b)
+				}
+				s = sb.String()
+			}
+			if unescape && ql == quoteNone && strings.Contains(s, "\\") {
+				// A backslash quotes the character which follows it.
+				// A trailing backslash is kept as-is.
+				sb := cfg.strBuilder()
+				for i := 0; i < len(s); i++ {
+					if s[i] == '\\' && i+1 < len(s) {
+						i++
+					}
+					sb.WriteByte(s[i])
 				}
 				s = sb.String()
 			}
